@@ -197,6 +197,25 @@ static bool mesh_closed(const Mesh& m) {
     return !m.branes.empty();
 }
 
+// watertight and consistently oriented in the sense of Render/DCGrid.v's closed_mesh: every directed edge is
+// used exactly as often as its reverse (dual contouring may use an edge twice in each direction where two
+// patches of one cell meet, which mesh_closed - edge-manifoldness - rejects)
+static bool mesh_balanced(const Mesh& m) {
+    std::map<std::pair<uint32_t, uint32_t>, int> edges;
+    for (auto& t : m.branes) {
+        for (int e = 0; e < 3; ++e) {
+            uint32_t a = t(e), b = t((e + 1) % 3);
+            if (a == b) return false;
+            ++edges[{a, b}];
+        }
+    }
+    for (auto& kv : edges) {
+        auto r = edges.find({kv.first.second, kv.first.first});
+        if (r == edges.end() || r->second != kv.second) return false;
+    }
+    return !m.branes.empty();
+}
+
 // C03 / C04: combinatorial and geometric audit of a triangle mesh
 struct MeshAudit {
     long tris = 0, verts = 0, degenerate = 0, bad_index = 0, unreferenced = 0, unbalanced_edges = 0, nonmanifold_edges = 0;
@@ -1289,7 +1308,7 @@ int main(int argc, char** argv) {
                 std::ostringstream o;
                 o << "CN site=" << g_cancel_site << " k=" << g_cancel_k << " fired=" << g_cancel_fired.load()
                   << " result=" << (mesh ? "mesh" : "null");
-                if (mesh) o << " tris=" << mesh->branes.size() << " verts=" << mesh->verts.size() << " closed=" << mesh_closed(*mesh);
+                if (mesh) o << " tris=" << mesh->branes.size() << " verts=" << mesh->verts.size() << " closed=" << mesh_balanced(*mesh);
                 o << " ms=" << ms << " counts=";
                 for (int i = 0; i < N_SCHED_SITES; ++i) o << (i ? "," : "") << g_site_count[i].load();
                 out(o.str());
@@ -1408,7 +1427,7 @@ int main(int argc, char** argv) {
                 const int n = 1 << level;
                 std::ostringstream o;
                 o << "DG level=" << got_level << " tris=" << (mesh ? mesh->branes.size() : 0) << " verts=" << (mesh ? mesh->verts.size() - 1 : 0)
-                  << " closed=" << (mesh ? mesh_closed(*mesh) : 0) << " zero=";
+                  << " closed=" << (mesh ? mesh_balanced(*mesh) : 0) << " zero=";
                 int zeros = 0; std::string pts;
                 for (int i = 0; i <= n; ++i) for (int j = 0; j <= n; ++j) for (int k = 0; k <= n; ++k) {
                     Eigen::Vector3d p(lo.x() + (hi.x() - lo.x()) * i / n, lo.y() + (hi.y() - lo.y()) * j / n, lo.z() + (hi.z() - lo.z()) * k / n);
